@@ -2,6 +2,7 @@
 # tools/seeds_regress.sh [names...] : re-apply every kept seeded change to a scratch worktree of /repo HEAD and run the checks recorded as
 # catching it (meta.json caught_by); prints one line per seed: CAUGHT / MISSED / NOAPPLY (the patch no longer applies to HEAD).
 cd "$(dirname "$0")/.." || exit 2
+export VERIF_EVIDENCE_DIR="$PWD/out/evidence-scratch"; mkdir -p "$VERIF_EVIDENCE_DIR"   # these runs must not overwrite evidence/
 mkdir -p out
 names="$*"
 [ -z "$names" ] && names=$(ls seeded)
